@@ -410,6 +410,14 @@ pub struct Content {
     aux: Option<Vec<u8>>,
 }
 
+/// The mint a staged bundle stands for: zero amounts dropped, then empty policies.
+fn effective_mint(m: &BTreeMap<Vec<u8>, BTreeMap<Vec<u8>, i64>>) -> BTreeMap<Vec<u8>, BTreeMap<Vec<u8>, i64>> {
+    m.iter()
+        .map(|(p, a)| (p.clone(), a.iter().filter(|(_, q)| **q != 0).map(|(n, q)| (n.clone(), *q)).collect::<BTreeMap<_, _>>()))
+        .filter(|(_, a)| !a.is_empty())
+        .collect()
+}
+
 impl Content {
     fn first_difference(&self, o: &Content) -> Option<(&'static str, String)> {
         macro_rules! f {
@@ -794,6 +802,7 @@ struct Acc {
     redeemer_pointer_checks: AtomicU64,
     reordered_pointer_checks: AtomicU64,
     hash_checks: AtomicU64,
+    cancelled_mint_builds_ok: AtomicU64,
     diag_redeemer_payload_differs: AtomicU64,
     diag_fee_differs: AtomicU64,
     violations: Mutex<BTreeMap<String, Best>>,
@@ -913,7 +922,7 @@ fn run_history(acc: &Acc, hist: &[Ev]) -> Outcome {
                 Some("malformed-data")
             } else if match p {
                 Purpose::Spend(i) => !staged.content.inputs.contains(i),
-                Purpose::Mint(pid) => !staged.content.mint.contains_key(pid),
+                Purpose::Mint(pid) => !effective_mint(&staged.content.mint).contains_key(pid),
             } {
                 Some("target-missing")
             } else {
@@ -969,16 +978,24 @@ fn run_history(acc: &Acc, hist: &[Ev]) -> Outcome {
         Ok(Err(e)) => fail("built-bytes:not-a-conway-tx".into(), format!("built bytes do not decode as conway::Tx: {e}"), json!({})),
         Ok(Ok(Err(e))) => fail("built-bytes:unexpected-shape".into(), format!("decoded transaction has an unexpected shape: {e}"), json!({})),
         Ok(Ok(Ok(dec))) => {
-            if let Some((field, detail)) = staged.content.first_difference(&dec.content) {
+            // A Conway mint cannot carry a zero quantity: a staged amount that cancelled out
+            // to 0 mints nothing, so the staged side drops zero amounts, then empty policies.
+            let staged_cmp = Content { mint: effective_mint(&staged.content.mint), ..staged.content.clone() };
+            if let Some((field, detail)) = staged_cmp.first_difference(&dec.content) {
                 fail(format!("built-content:{field}"), format!("built {field} are not the staged ones: {detail}"), json!({}));
+            }
+            if staged_cmp.mint != staged.content.mint {
+                acc.cancelled_mint_builds_ok.fetch_add(1, Ordering::Relaxed);
             }
             if dec.fee != staged.fee.unwrap_or(0) {
                 acc.diag_fee_differs.fetch_add(1, Ordering::Relaxed);
             }
             // (3) redeemer pointers: index = position of the target in the ledger's
             // canonical order (inputs: the sorted *set* of (tx id, index); mint: sorted policy ids).
-            let sorted_inputs: Vec<&In> = staged.content.inputs.iter().collect();
-            let sorted_policies: Vec<&Vec<u8>> = staged.content.mint.keys().collect();
+            // The order is read off the built transaction (that is what a ledger resolves a
+            // pointer against); its inputs / mint equal the staged ones by the check above.
+            let sorted_inputs: Vec<&In> = dec.content.inputs.iter().collect();
+            let sorted_policies: Vec<&Vec<u8>> = dec.content.mint.keys().collect();
             let has_dup_inputs = staged.inputs_list.len() != staged.content.inputs.len();
             let mut expected: Vec<(u8, u32)> = vec![];
             let mut expected_full: Vec<(u8, u32, Vec<u8>, (u64, u64))> = vec![];
@@ -997,7 +1014,7 @@ fn run_history(acc: &Acc, hist: &[Ev]) -> Outcome {
                 }
             }
             if let Some(p) = missing {
-                fail("redeemer-pointer:target-not-staged".into(), format!("built although the target of redeemer {p:?} is not staged"), json!({}));
+                fail("redeemer-pointer:target-not-in-built-tx".into(), format!("built although the target of redeemer {p:?} is not among the built inputs / minted policies"), json!({}));
             } else {
                 let mut got: Vec<(u8, u32)> = dec.redeemers.iter().map(|r| (r.0, r.1)).collect();
                 got.sort();
@@ -1198,6 +1215,7 @@ pub fn run(ctx: Ctx) -> ! {
         "builds_err_by_kind" => json!(errs),
         "builds_panicked" => acc.build_panic.load(Ordering::Relaxed),
         "states_with_iteration_order_dependent_build_outcome" => acc.order_dependent_states.load(Ordering::Relaxed),
+        "builds_ok_with_a_mint_amount_cancelled_to_zero" => acc.cancelled_mint_builds_ok.load(Ordering::Relaxed),
         "tx_hash_checks" => acc.hash_checks.load(Ordering::Relaxed),
         "redeemer_pointer_checks" => ptr,
         "redeemer_pointer_checks_with_reordered_targets" => reordered,
@@ -1214,6 +1232,7 @@ pub fn run(ctx: Ctx) -> ! {
         cov,
         &[
             "staged content = the public fields of the StagingTransaction (cross-checked against a bookkeeping model of the calls; divergences are diagnostics)",
+            "a staged mint amount that accumulated to 0 stands for 'nothing minted': zero amounts, then empty policies, are dropped from the staged side of the mint comparison; redeemer positions are taken in the sorted set of inputs / sorted policy ids of the built transaction",
             "sets (inputs, collateral, reference inputs, signers, datums, scripts) are compared as sets; datums, native scripts and auxiliary data up to CBOR spelling (definite/indefinite, head width)",
             "fee, script_data_hash, redeemer data and ex-units are not in the property's list and are diagnostics only",
             "panics inside staging calls (remove_output out of range) are outside 'building' and reported as diagnostics",
